@@ -80,6 +80,10 @@ fn munit_name(u: Option<MUnit>) -> &'static str {
 
 struct Plan {
     metrics: Vec<MetricSpec>,
+    /// idle counters registered up front: they only lengthen every readout's sweep
+    filler: usize,
+    /// metrics that are described, registered and first updated (in that order, by one thread) while readouts run
+    fresh: Vec<MetricSpec>,
     updaters: usize,
     per: usize,
     with_reporter: bool,
@@ -106,7 +110,16 @@ fn gen_plan(rng: &mut Rng) -> Plan {
         };
         metrics.push(MetricSpec { key, kind, unit, describe_first: rng.bool() });
     }
-    Plan { metrics, updaters: 1 + rng.usize_below(if is_miri() { 2 } else { 12 }), per: 1 + rng.usize_below(if is_miri() { 10 } else { 3000 }), with_reporter: !is_miri() && rng.bool(), seed: rng.next_u64() }
+    let filler = if is_miri() { 0 } else { *rng.pick(&[0usize, 0, 200, 3000, 20_000]) };
+    let n_fresh = if is_miri() { rng.usize_below(3) } else { *rng.pick(&[0usize, 5, 60, 400]) };
+    let fresh = (0..n_fresh)
+        .map(|i| {
+            let kind = *rng.pick(&[Kind::Counter, Kind::Gauge, Kind::Histogram, Kind::Histogram]);
+            let unit = *rng.pick(&[Some(MUnit::Count), Some(MUnit::Milliseconds), Some(MUnit::Bytes), Some(MUnit::Percent), Some(MUnit::Seconds)]);
+            MetricSpec { key: KeyId { name: format!("fresh_{i}"), labels: vec![] }, kind, unit, describe_first: true }
+        })
+        .collect();
+    Plan { metrics, filler, fresh, updaters: 1 + rng.usize_below(if is_miri() { 2 } else { 12 }), per: 1 + rng.usize_below(if is_miri() { 10 } else { 3000 }), with_reporter: !is_miri() && rng.bool(), seed: rng.next_u64() }
 }
 
 struct Truth {
@@ -115,6 +128,8 @@ struct Truth {
     gauge_sets: HashMap<KeyId, Vec<f64>>,
     /// name -> (unit name, ticket before describe, ticket after describe)
     described: HashMap<String, (&'static str, u64, u64)>,
+    /// key -> ticket taken just before its handle was registered
+    registered: HashMap<KeyId, u64>,
 }
 
 fn run_history(plan: &Plan, rep: &Report) -> bool {
@@ -134,7 +149,7 @@ fn run_history(plan: &Plan, rep: &Report) -> bool {
         }
         None => (None, Rec::new()),
     };
-    let mut truth = Truth { counter_total: HashMap::new(), hist_values: HashMap::new(), gauge_sets: HashMap::new(), described: HashMap::new() };
+    let mut truth = Truth { counter_total: HashMap::new(), hist_values: HashMap::new(), gauge_sets: HashMap::new(), described: HashMap::new(), registered: HashMap::new() };
     let describe = |spec: &MetricSpec, truth: &mut Truth| {
         if truth.described.contains_key(&spec.key.name) {
             return;
@@ -160,12 +175,14 @@ fn run_history(plan: &Plan, rep: &Report) -> bool {
             describe(spec, &mut truth);
         }
         let k = mkey(&spec.key);
+        truth.registered.insert(spec.key.clone(), ticket());
         handles.push((i, match spec.kind {
             Kind::Counter => H::C(recorder.register_counter(&k, &meta)),
             Kind::Gauge => H::G(recorder.register_gauge(&k, &meta)),
             Kind::Histogram => H::H(recorder.register_histogram(&k, &meta)),
         }));
     }
+    let _filler: Vec<metrics::Counter> = (0..plan.filler).map(|i| recorder.register_counter(&Key::from_name(format!("filler_{i}")), &meta)).collect();
     // deal the metrics to updaters: counters and histograms are shared by all, a gauge has one writer
     let handles = Arc::new(handles);
     let stop_reader = Arc::new(AtomicBool::new(false));
@@ -228,6 +245,52 @@ fn run_history(plan: &Plan, rep: &Report) -> bool {
             }
         })
     };
+    // fresh metrics: describe -> register -> first update, one after the other, while readouts run
+    let fresh_thread = {
+        let (recorder, fresh, seed) = (recorder.clone(), plan.fresh.clone(), plan.seed);
+        std::thread::spawn(move || {
+            let meta = Metadata::new("c20", Level::INFO, None);
+            let mut rng = Rng::derive(seed, 777);
+            let mut out = vec![];
+            let mut keep = vec![];
+            for spec in &fresh {
+                let t0 = ticket();
+                let name: metrics::KeyName = spec.key.name.clone().into();
+                match spec.kind {
+                    Kind::Counter => recorder.describe_counter(name, spec.unit, "".into()),
+                    Kind::Gauge => recorder.describe_gauge(name, spec.unit, "".into()),
+                    Kind::Histogram => recorder.describe_histogram(name, spec.unit, "".into()),
+                }
+                let t1 = ticket();
+                let k = mkey(&spec.key);
+                let treg = ticket();
+                let v = 1 + rng.below(30);
+                match spec.kind {
+                    Kind::Counter => {
+                        let h = recorder.register_counter(&k, &meta);
+                        h.increment(v);
+                        keep.push(H::C(h));
+                    }
+                    Kind::Gauge => {
+                        let h = recorder.register_gauge(&k, &meta);
+                        h.set(v as f64);
+                        keep.push(H::G(h));
+                    }
+                    Kind::Histogram => {
+                        let h = recorder.register_histogram(&k, &meta);
+                        h.record(v as f64);
+                        keep.push(H::H(h));
+                    }
+                }
+                out.push((t0, t1, treg, v));
+                progress_tick();
+                for _ in 0..rng.below(3000) {
+                    std::hint::spin_loop();
+                }
+            }
+            (out, keep)
+        })
+    };
     barrier.wait();
     for spec in plan.metrics.iter().filter(|s| !s.describe_first) {
         describe(spec, &mut truth);
@@ -236,6 +299,17 @@ fn run_history(plan: &Plan, rep: &Report) -> bool {
     for u in updaters {
         let _ = u.join();
     }
+    let (fresh_out, _fresh_handles) = fresh_thread.join().expect("fresh-metric thread");
+    for (spec, (t0, t1, treg, v)) in plan.fresh.iter().zip(fresh_out) {
+        truth.described.insert(spec.key.name.clone(), (munit_name(spec.unit), t0, t1));
+        truth.registered.insert(spec.key.clone(), treg);
+        match spec.kind {
+            Kind::Counter => *truth.counter_total.entry(spec.key.clone()).or_default() += v,
+            Kind::Gauge => truth.gauge_sets.entry(spec.key.clone()).or_default().push(v as f64),
+            Kind::Histogram => truth.hist_values.entry(spec.key.clone()).or_default().push(v as u32),
+        }
+    }
+    rep.count("fresh_metrics_created_during_readouts", plan.fresh.len() as u64);
     stop_reader.store(true, Ordering::SeqCst);
     let _ = reader.join();
     if let (Some(r), Some(rt)) = (&reporter, &rt) {
@@ -266,8 +340,8 @@ fn run_history(plan: &Plan, rep: &Report) -> bool {
 }
 
 fn check(plan: &Plan, truth: &Truth, all: &[Readout], final_readout: &Readout, rep: &Report) -> bool {
-    let spec_of: HashMap<KeyId, &MetricSpec> = plan.metrics.iter().map(|m| (m.key.clone(), m)).collect();
-    let ctx = format!("{} metrics, {} updaters x {} updates, reporter task: {}", plan.metrics.len(), plan.updaters, plan.per, plan.with_reporter);
+    let spec_of: HashMap<KeyId, &MetricSpec> = plan.metrics.iter().chain(plan.fresh.iter()).map(|m| (m.key.clone(), m)).collect();
+    let ctx = format!("{} metrics + {} idle filler counters + {} fresh metrics created during readouts, {} updaters x {} updates, reporter task: {}", plan.metrics.len(), plan.filler, plan.fresh.len(), plan.updaters, plan.per, plan.with_reporter);
     let witness = |what: &str, extra: Value| json!({"what": what, "ctx": ctx, "readouts": all.len(), "extra": extra});
     let mut counter_sum: BTreeMap<KeyId, u64> = BTreeMap::new();
     let mut hist_out: BTreeMap<KeyId, Vec<(f64, u64)>> = BTreeMap::new();
@@ -286,10 +360,12 @@ fn check(plan: &Plan, truth: &Truth, all: &[Readout], final_readout: &Readout, r
             };
             // unit: described before the readout began => must be there; after it returned => absent
             if let Some((uname, d0, d1)) = truth.described.get(name) {
-                let must = r.start != 0 && *d1 < r.start;
+                // described before the readout began, or before this key was even registered (a readout that
+                // reports the key observed its registration, hence also the earlier describe) => must be there
+                let must = (r.start != 0 && *d1 < r.start) || truth.registered.get(&key).is_some_and(|t| *d1 < *t);
                 let must_not = *d0 > r.end;
                 if (must && unit.name() != *uname) || (must_not && unit.name() != "None") {
-                    rep.violation("readout-unit-wrong", witness("unit of a readout metric differs from the described unit", json!({"name": name, "unit": unit.name(), "described": uname, "described_before_readout": must})));
+                    rep.violation("readout-unit-wrong", witness("unit of a readout metric differs from the described unit", json!({"name": name, "unit": unit.name(), "described": uname, "described_before_readout_or_registration": must, "source": r.source})));
                     return false;
                 }
                 if unit.name() != *uname && unit.name() != "None" {
